@@ -1,3 +1,3 @@
 From Verif Require Import Extract.C11.
 Require Import ExtrOcamlBasic.
-Extraction "c11_model.ml" c11_probe.
+Extraction "c11_model.ml" c11_probe c11_doc.
